@@ -196,7 +196,15 @@ func judgeC14(j *judgeCtx) {
 				same = wd.effConc(c.Arg) == cur
 			}
 			want := c14Expected(c.K, st, same, cancelled)
-			if st != lsU && want != "*" {
+			// a call that another lifecycle call overlaps may take effect after it: its
+			// result is judged by the linearizability clause C14.e instead
+			overlapped := false
+			for _, o := range j.lcalls {
+				if o != c && o.Inv < c.Ret && (o.Ret == 0 || o.Ret > c.Inv) {
+					overlapped = true
+				}
+			}
+			if st != lsU && want != "*" && !overlapped {
 				ok := c.Err == want || (want == "!" && c.Err != "")
 				if !ok {
 					j.add("C14.a", c.Ret, "%s called in state %c returned %q, the documented machine says %q", opNames[c.K], st, c.Err, want)
